@@ -423,8 +423,47 @@ def run_unique_keys_expect(chk, spec):
 RUNNERS["unique_keys_expect"] = run_unique_keys_expect
 
 
+def run_repeated_name_after_other_table(chk, spec):
+	"""a key given by a name the table carries TWICE means the first such column (what t[name] returns) - whatever position that name had in some other table an
+	earlier call looked at"""
+	import warnings
+	how = spec["how"]
+	with warnings.catch_warnings():
+		warnings.simplefilter("ignore")
+		p = spec["position"]
+		names0 = ["a", "b", "c"]
+		names0[p] = "k"
+		other = Table([Vector([1, 2, 3], name=nm) for nm in names0])
+		probe = Table({"z": [1, 2], "w": [5, 6]})
+		# (1) earlier calls resolve 'k' at position p of an unrelated table
+		for f in (lambda: other.inner_join(probe, "k", "z"), lambda: other.aggregate(over="k", count_over=names0[(p + 1) % 3]), lambda: other.sort_by("k")):
+			call(f)
+		# (2) a table that carries 'k' at position 0 and again at position p (different cells), (3) joined by 'k'
+		cols = [[1, 2, 2], [7, 8, 9], [4, 5, 6]]
+		names = ["k", "x", "y"]
+		if p:
+			names[p] = "k"
+			cols[p] = [2, 1, 1]
+		else:
+			names[2] = "k"
+			cols[2] = [2, 1, 1]
+		T = Table([Vector(list(c), name=nm) for c, nm in zip(cols, names)])
+		R = Table({"r": [1, 2, 3], "rid": [10, 20, 30]})
+		if spec["side"] == "left":
+			J.check_join(chk, chk.pid, "sampled", how, T, R, ["k"], ["r"], key_mode="name", expect="many_to_many", label="repeated-name-after-other-table", sig=("repeated-name-after-other-table", how, p, "left"))
+		else:
+			J.check_join(chk, chk.pid, "sampled", how, R, T, ["r"], ["k"], key_mode="name", expect="many_to_many", label="repeated-name-after-other-table", sig=("repeated-name-after-other-table", how, p, "right"))
+
+
+RUNNERS["repeated_name_after_other_table"] = run_repeated_name_after_other_table
+
+
 def unique_keys_cases(chk, hows):
 	rng = chk.rng
+	for how in hows:
+		for position in (0, 1, 2):
+			for side in ("left", "right"):
+				chk.case("repeated_name_after_other_table", {"how": how, "position": position, "side": side}, "repeated-name-after-other-table")
 	for how in hows:
 		for expect in ("one_to_one", "many_to_one", "one_to_many", "many_to_many"):
 			for kind in ("str", "int", "date", "mixed-none"):
